@@ -56,6 +56,9 @@ def main():
             if not os.path.exists(mp):
                 continue
             meta = json.load(open(mp))
+            if meta.get('obsolete'):
+                print('SELFTEST %-40s OBSOLETE (defect class removed from /repo by a later fix, see meta.json)' % d)
+                continue
             it = {'name': d, 'property': meta['property'], 'patch_path': os.path.join(sd, d, 'patch.diff'), 'expect_rule': None, 'expect_instance': None}
             it['properties'] = claimed if a.all_properties else [meta['property']]
             items.append(it)
